@@ -387,6 +387,11 @@ class NoPanic:
         # the same kind and operand shape in that type which no site of its own function claimed covers it (its required facts are re-checked)
         def type_key(k):
             head, _, tail = pool_key(k).partition("/")
+            # for unwrap / expect sites only the producer of the Option / Result identifies the site at this level (its arguments may have become
+            # parameters or captured values when the code moved)
+            m = re.match(r"^(unwrap|expect)\(([A-Za-z_0-9:]+)\(", tail)
+            if m:
+                tail = "%s(%s)" % (m.group(1), m.group(2))
             return head.rsplit("::", 1)[0] + "/" + tail
         left = {}
         for lst in (self._audit_pool or {}).values():
